@@ -453,6 +453,15 @@ theorem gen_pkg_root_name_probe :
         { isDir := fun p => p = "/probe-base".toList, isThere := fun p => p = "/probe-base".toList, size := fun _ => 0 }
         { probeView true [] with docroot := [] } e.1 e.2.1) = e.2.2 := by decide +kernel
 
+/-- generated obligation (fbf36b3): a resource name that pkg_resources refuses as absolute (leading backslash, drive and
+root) is answered 404 by `get_resource_name` itself; the others are named as before -/
+theorem gen_guard_probe :
+    Gen.guardProbe.length = 9 ∧
+    ∀ e ∈ Gen.guardProbe,
+      nameOutcomeTag (resourceNameOv
+        { isDir := fun p => p = "/probe-base".toList, isThere := fun p => p = "/probe-base".toList, size := fun _ => 0 }
+        { v := { probeView true [] with docroot := [] }, ovs := [] } false e.1) = e.2 := by decide +kernel
+
 /-- generated obligation: `FSAssetSource.get_path` (leading slashes of the name stripped before the join, the bare
 prefix for the empty name) and `PackageAssetSource.get_path` (prefix + name) are the model's `Source.osPath` -/
 theorem gen_source_path_probe :
@@ -546,12 +555,25 @@ theorem unstripped_join_escapes :
     (Source.fs "/srv/ov/".toList).osPath "/etc/passwd".toList = "/srv/ov/etc/passwd".toList ∧
     pkgResourcePath [] "etc/passwd".toList = "etc/passwd".toList := by decide
 
-/-- PARTIAL (finding F-C16g): "404, redirect or a file" fails for a package-relative view when the resource name is
-absolute for Windows but not for POSIX (`\x`, `C:/x` below a package-root spec): pkg_resources raises ValueError. -/
-theorem windows_absolute_name_raises :
-    staticViewOv exOvFs { exOvView with ovs := [] } none false ["\\x".toList] = .valueError ∧
-    staticViewOv exOvFs { exOvView with ovs := [] } none false ["C:".toList, "x".toList] = .valueError ∧
+/-- the regression witness of the repaired F-C16g (fbf36b3): a resource name that is absolute for Windows but not
+for POSIX (`\x`, `C:/x` below a package-root spec) is refused by the guarded first call and answered 404 -/
+theorem windows_absolute_name_refused :
+    staticViewOv exOvFs { exOvView with ovs := [] } none false ["\\x".toList] = .notFound ∧
+    staticViewOv exOvFs { exOvView with ovs := [] } none false ["C:".toList, "x".toList] = .notFound ∧
     staticViewOv exOvFs { exOvView with ovs := [] } none false ["x".toList] = .notFound := by decide
+
+/-- PARTIAL (finding F-C16h): "404, redirect or a file" still fails where an UNGUARDED later pkg_resources call
+raises — (A) a directory named like a drive at the root of a package-root view, requested with a slash (index
+name `c:/index.html`); (B) a whole-package filesystem override that has `\x` while the variant `\x.gz` falls
+through to the package. -/
+theorem unguarded_call_raises :
+    let fsA : Fs := { exOvFs with isDir := fun p => p = "/opt/pkg/c:".toList || exOvFs.isDir p,
+                                  isThere := fun p => p = "/opt/pkg/c:".toList || exOvFs.isThere p }
+    let fsB : Fs := { exOvFs with isThere := fun p => p = "/srv/ov/\\x".toList || exOvFs.isThere p }
+    staticViewOv fsA { exOvView with ovs := [] } none true ["c:".toList] = .valueError ∧
+    staticViewOv fsB { exOvView with ovs := [{ path := [], src := .fs "/srv/ov/".toList }] } none false ["\\x".toList] = .valueError ∧
+    staticViewOv fsB { v := { exOvView.v with encs := [] }, ovs := [{ path := [], src := .fs "/srv/ov/".toList }] } none false
+      ["\\x".toList] = .file "/srv/ov/\\x".toList none false := by decide
 
 end Pyr.Static
 
